@@ -7,6 +7,8 @@ VERIF = os.path.dirname(os.path.dirname(os.path.abspath(__file__)))
 REPO = os.environ.get("VERIF_REPO", "/repo")
 GOBIN = "/root/go/pkg/mod/golang.org/toolchain@v0.0.1-go1.25.0.linux-amd64/bin"
 MODPATH = "github.com/openGemini/openGemini"
+# evidence/ and replays/ describe /repo only; a run against another tree (VERIF_REPO=<scratch worktree>) writes elsewhere
+OUTROOT = VERIF if os.path.realpath(REPO) == "/repo" else os.path.join(VERIF, ".build", "alt-tree")
 
 
 def goenv():
@@ -218,8 +220,8 @@ def finish(cid, tier, level, rule, reports, t0, assumptions=None, extra_cov=None
                                        "instances_this_run": len(vs), "example": vs[0].get("key")}
                                       for k, vs in matched.values()],
            "violations_total_including_known": nvio}
-    os.makedirs(os.path.join(VERIF, "evidence"), exist_ok=True)
-    with open(os.path.join(VERIF, "evidence", cid + ".json"), "w") as fh:
+    os.makedirs(os.path.join(OUTROOT, "evidence"), exist_ok=True)
+    with open(os.path.join(OUTROOT, "evidence", cid + ".json"), "w") as fh:
         json.dump(evd, fh, indent=1, default=str)
     for k, vs in matched.values():
         print("KNOWN-FINDING: property=%s %s (e.g. %s)" % (cid, k.get("what"), vs[0].get("key")), flush=True)
@@ -235,7 +237,7 @@ def finish(cid, tier, level, rule, reports, t0, assumptions=None, extra_cov=None
         if h in seen:
             continue
         seen.add(h)
-        d = os.path.join(VERIF, "replays", cid)
+        d = os.path.join(OUTROOT, "replays", cid)
         os.makedirs(d, exist_ok=True)
         p = os.path.join(d, h + ".json")
         with open(p, "w") as fh:
@@ -248,7 +250,7 @@ def finish(cid, tier, level, rule, reports, t0, assumptions=None, extra_cov=None
         if n > 3:
             print("  (+%d more kept violations of kind %s; see evidence counters)" % (n - 3, kind), flush=True)
     evd["violation_kinds"] = per_kind
-    with open(os.path.join(VERIF, "evidence", cid + ".json"), "w") as fh:
+    with open(os.path.join(OUTROOT, "evidence", cid + ".json"), "w") as fh:
         json.dump(evd, fh, indent=1, default=str)
     log("%s %s: evaluations=%d distinct_nontrivial=%d exhaustive=%s violations=%d known=%d wall=%.1fs" % (
         cid, tier, ev, len(distinct), exhaustive, len(unmatched), len(matched), time.time() - t0))
